@@ -24,6 +24,9 @@ label(struct func *f, struct scope *s)
 		b = mkblock("switch_case");
 		funclabel(f, b);
 		i = intconstexpr(s, true);
+		/* convert to the promoted type of the controlling expression (C11 6.8.4.2p5) */
+		if (s->switchcases->type->size < 8)
+			i = ((i & 0xffffffff) ^ 0x80000000) - 0x80000000;
 		switchcase(s->switchcases, i, b);
 		expect(TCOLON, "after case expression");
 		break;
